@@ -16,7 +16,7 @@ def _work(args):
     from builders.gen_project import gen_project
     from builders.judge import judge_project
     rng = random.Random(seed)
-    spec = gen_project(rng)
+    spec = gen_project(rng, focus="git" if "C09" in props and seed % 4 == 0 else None)
     try:
         r = judge_project(spec, rng, props=props, tier=tier)
     except Exception as e:  # noqa
